@@ -33,7 +33,7 @@ m = {
     "engines": [{"name": "avrocheck", "path": "checker/", "serves_properties": [c['property_id'] for c in checks],
                  "kind_free_text": "repository-specific static analyzer over go/types + go/ssa (x/tools v0.50.0): guard dominance, builder dispatch tables, pointee contracts, wire-token automata, taint, lock and error discipline"}],
     "checks": checks,
-    "notes": "Static analysis only (no library code is executed, concretely or symbolically). Every claim is at level 'other': the check decides named structural clauses that are necessary conditions of the property, not the behavioural statement itself. Genuine defects found are repaired by fix: commits in /repo or listed in known_findings.json. See DESIGN.md.",
+    "notes": "Static analysis only: no library code is executed and no solver is involved. Besides dominance, dataflow, automata and table rules, one engine (E-CP, DESIGN 11.5-11.6) interprets go/ssa abstractly - constants, named unknowns, and for a symbolic input string per-byte value sets with exact tables of byte functions - forking on undecided branches within fixed budgets; its questions are finite tables of the specification, not sampled inputs. Every claim is at level 'other': the check decides named structural clauses that are necessary conditions of the property, not the behavioural statement itself. Genuine defects found are repaired by fix: commits in /repo or listed in known_findings.json. See DESIGN.md.",
     "not_applicable": na,
 }
 json.dump(m, open(os.path.join(here, 'MANIFEST.json'), 'w'), indent=1)
